@@ -1,10 +1,12 @@
 """C06 -- results are independent of call history (bounded: histories on one graph vs. the same call on a fresh graph)."""
 import random
 from bounded import progs, tracer_checks as T
+from .common import deductive_part
 LEVEL = 'exploration'
 
 
 def run(rep, tier, seed):
+    rc0, _res = deductive_part(rep, 'C06', tier, seed)          # frames of the pullbacks: a reverse sweep writes adjoints only (proved per pullback)
     rng = random.Random(4000 + seed)
     ps = progs.single_op_programs(4) + progs.random_programs(30 if tier == 'quick' else 400, rng, N=4, maxlen=4 if tier == 'quick' else 6)
     L = 6 if tier == 'quick' else 12
@@ -26,4 +28,4 @@ def run(rep, tier, seed):
                     samples, 'history length <= %d, %d histories per program, programs <= %d ops' % (L, reps, 4 if tier == 'quick' else 6))
     rep.extra['skipped'] = skipped
     rep.extra['explanation'] = 'whole-history property: outside what per-call contracts decide (DESIGN 13); the two mechanisms by which state can leak (a pullback overwriting a forward value; buffer contents saved at record time) are also covered per call by C14/C03'
-    return 0
+    return rc0
